@@ -10,7 +10,7 @@ import zlib
 
 from cherab.core.atomic import (AtomicData, ImpactExcitationPEC, RecombinationPEC, ThermalCXPEC, BeamCXPEC, BeamStoppingRate,
                                 BeamPopulationRate, BeamEmissionPEC, LineRadiationPower, ContinuumPower, CXRadiationPower)
-from cherab.core.atomic.gaunt import MaxwellianFreeFreeGauntFactor
+from cherab.core.atomic.gaunt import FreeFreeGauntFactor
 
 from .simfunc import SimFault, SimInterrupt
 
@@ -93,6 +93,17 @@ class SimBeamEmission(BeamEmissionPEC):
         return self.c * _pw(energy, 5e4, 0.18) * _pw(density, 1e19, -0.08) * _pw(temperature, 100.0, 0.07)
 
 
+class SimGaunt(FreeFreeGauntFactor):
+    """Provider-dependent free-free Gaunt factor (two providers of a run must not share it: a model that keeps the
+    first provider's factor after `atomic_data` was replaced would otherwise be invisible)."""
+
+    def __init__(self, c):
+        self.c = c
+
+    def evaluate(self, z, temperature, wavelength):
+        return self.c * _pw(z, 2.0, 0.1) * _pw(temperature, 100.0, 0.15) * _pw(wavelength, 500.0, 0.2)
+
+
 def _power_cls(base):
     class SimPower(base):
         def __init__(self, element, charge, c):
@@ -150,8 +161,9 @@ class SimAtomicData(AtomicData):
 
     def wavelength(self, ion, charge, transition):
         self._enter("wavelength", self._el(ion), charge, tuple(transition))
-        # fixed per line, identical for every provider of the run (keeps spectral windows meaningful)
-        return 420.0 + 260.0 * (_u("wl", self._el(ion), charge, tuple(transition)) - 0.5)
+        # fixed per line up to a small provider-dependent shift (< 0.4 nm: stays inside the narrow spectral windows,
+        # yet a renderer that keeps the wavelength of a replaced provider becomes visible)
+        return 420.0 + 260.0 * (_u("wl", self._el(ion), charge, tuple(transition)) - 0.5) + 0.45 * (self.param - 1.0)
 
     def impact_excitation_pec(self, ion, charge, transition):
         return SimExcPEC(1e-16 * self._enter("impact_excitation_pec", self._el(ion), charge, tuple(transition)))
@@ -187,5 +199,4 @@ class SimAtomicData(AtomicData):
         return SimCXPower(element, charge, 1e-32 * self._enter("cx_radiated_power_rate", self._el(element), charge))
 
     def free_free_gaunt_factor(self):
-        self._enter("free_free_gaunt_factor")
-        return MaxwellianFreeFreeGauntFactor()
+        return SimGaunt(1.1 * self._enter("free_free_gaunt_factor"))
